@@ -126,7 +126,13 @@ std::string spell_double(vf::Src& s, double d, int digits) {
 	case 5: snprintf(b, sizeof b, "%.0f", d); break;                                   // integral value as an integer literal
 	default: snprintf(b, sizeof b, "%.1f", d); break;                                  // 5.0
 	}
-	std::string t = b; if (t == "-0" ) t = "-0.0"; return t;
+	std::string t = b;
+	// ECMAScript style: a large integral value as an integer literal made of its 17 significant digits and zeros - it is not the exact value, it rounds to it
+	if (integral && std::fabs(d) >= (digits == 9 ? 16777216.0 : 9007199254740992.0) && std::fabs(d) < 1.8e19 && s.chance(1, 3)) {
+		snprintf(b, sizeof b, "%.*e", digits - 1, std::fabs(d)); std::string m = b; const size_t e = m.find('e'); const int ex = atoi(m.c_str() + e + 1); std::string ds; for (size_t i = 0; i < e; i++) if (m[i] != '.') ds.push_back(m[i]);
+		if (ex >= digits - 1) { ds.append(static_cast<size_t>(ex - (digits - 1)), '0'); const double back = strtod(ds.c_str(), nullptr); if (digits == 9 ? static_cast<float>(back) == static_cast<float>(std::fabs(d)) : back == std::fabs(d)) t = (d < 0 ? "-" : "") + ds; }
+	}
+	if (t == "-0" ) t = "-0.0"; return t;
 }
 void emit(vf::Src& s, const Val& n, std::string& o, int strStyle, bool permute) {
 	emit_ws(s, o);
